@@ -2,7 +2,7 @@
     Statements only; proofs in Proofs/Builder_Proofs.v. *)
 From Coq Require Import ZArith QArith Qround Qabs List Lia.
 From SB Require Import Base.Prelude Base.Num Base.F32 Gen.Generated Model.Codec Model.Traj Model.Utils Model.Rth Model.Builder
-  Proofs.Builder_Proofs Proofs.Utils_Proofs.
+  Proofs.Builder_Proofs Proofs.Utils_Proofs Proofs.BuilderFast_Proofs.
 Import ListNotations.
 Local Open Scope Z_scope.
 
@@ -73,3 +73,9 @@ Example conversion_example :
   end.
 Proof. exact Builder_Proofs.conversion_example. Qed.
 Print Assumptions conversion_example.
+
+(** The executable conversion used by the correspondence (closed-form holds, so
+    that entry times of weeks can be run) is the transcription above. *)
+Theorem conversion_closed_form : forall e start, rth_to_trajectory_fast e start = rth_to_trajectory e start.
+Proof. exact BuilderFast_Proofs.rth_fast_eq. Qed.
+Print Assumptions conversion_closed_form.
